@@ -99,6 +99,8 @@ def items(tier, seed):
         out += c06x86.items(tier, seed)
     except ImportError:
         pass
+    from vf.props import c06ia32
+    out += c06ia32.items(tier, seed)
     return out
 
 
@@ -201,6 +203,9 @@ def _rv_viol(res, xlen, enc, kind, env, desc):
 
 def replay(rep):
     if rep["arch"] != "rv":
+        if rep["arch"] == "ia32":
+            from vf.props import c06ia32
+            return c06ia32.replay(rep)
         from vf.props import c06x86
         return c06x86.replay(rep)
     xlen, enc = rep["xlen"], tuple(rep["enc"])
@@ -261,6 +266,9 @@ def run_item(item):
             rv_check(xlen, enc, P, res)
         res["solver_s"] = P.time
         return res
+    if item[0] == "ia32":
+        from vf.props import c06ia32
+        return c06ia32.run_item(item, res)
     from vf.props import c06x86
     return c06x86.run_item(item, res)
 
@@ -276,7 +284,7 @@ def coverage(agg, tier):
         "solver_s": round(agg.get("solver_s", 0.0), 1),
         "rule": "program = one instruction encoding (abstract instruction -> bytes by our encoder -> amoco decode + semantics -> map); obligation = 'exists state: register / flag / pc / memory byte of the map differs from the reference model'",
         "bounds": {"riscv": "every RV32I and RV64I base opcode (no FENCE/ECALL/EBREAK/CSR); register fields over {x0,x1,x2,x31}^k incl. aliasing; I-immediates {0,+-1,2047,-2048,4,-5,0x555}, S {0,+-1,2047,-2048,8}, B {0,+-4,4094,-4096,2,16}, U {0,1,0xfffff,0x80000,0x7ffff,0x12345}, J {0,+-4,2,0xffffe,-0x100000,0x800}, shift amounts {0,1,5,31,63}; quick: one encoding per mnemonic + 600 seed-selected per XLEN",
-                   "x86": "see vf/props/c06x86.py (listed in the evidence when present)",
+                   "x86": "see vf/props/c06x86.py (x86-64, validated on the host CPU) and vf/props/c06ia32.py (the same encodings without REX / 64-bit forms / stack instructions on amoco.arch.x86, against the same model restricted to zero upper halves and non-wrapping addresses)",
                    "outside": "RISC-V extensions, CSR/system instructions, x86 FPU/SSE/system/string instructions, undefined flags"},
         "exhaustive": False,
     }
